@@ -350,6 +350,14 @@ class Consumer(object):
 
         def _handle_shutdown_commit_success(result):
             """Handle the result of the commit attempted by shutdown"""
+            if (
+                self.consumer_group
+                and self._last_processed_offset is not None
+                and self._last_processed_offset != self._last_committed_offset
+            ):
+                # More was processed while that commit was in flight
+                # (shutdown() called from within the processor): commit it too
+                return _commit_and_stop(None)
             self._shutdown_d, d = None, self._shutdown_d
             if not self._stopping:  # unless stop() is what got us here
                 self.stop()
